@@ -588,6 +588,18 @@ structure Result where
   lockWrite : List Acct
   finalBal : List ((Acct × Asset) × Int)
 
+/-- what a caller observes of a successful execution: the postings, the transaction and account metadata (as the
+strings that are stored) and what was printed (as text).  C08 compares the compiled program with the source on
+these. -/
+structure Obs where
+  postings : List Posting
+  txMeta : List (String × String)
+  acctMeta : List (Acct × String × String)
+  prints : List String
+deriving Repr, DecidableEq
+
+def Result.obs (r : Result) : Obs := ⟨r.postings, r.txMeta, r.acctMeta, r.prints.map valToString⟩
+
 /-- everything up to the point where the engine takes its locks (compile, variables, resources) -/
 def prepare (P : Script) (req : Request) (store : Store) : Except Err VEnv :=
   if !check P then .error .compile else
